@@ -48,7 +48,8 @@ def session(draw):
                     'delay': draw(st.sampled_from([0, 0.5, 3.0, 10.2, 10.5, 11.0, 12.5]))} for _ in range(ncall)]
     if draw(st.integers(0, 5)) == 0:
         # one caller hands over data which can not be sent (not JSON serialisable): its own mistake, the others are not concerned
-        callers.insert(draw(st.integers(0, len(callers))), {'key': ['change', 'm:target'], 'delay': draw(st.sampled_from([0, 0, 0.5])), 'bad': 'unencodable'})
+        callers.insert(draw(st.integers(0, len(callers))), {'key': ['change', 'm:target'], 'delay': draw(st.sampled_from([0, 0, 0.5])),
+                                                            'bad': draw(st.sampled_from(['unencodable', 'unhashable']))})
     plan = []
     for _ in range(draw(st.integers(0, 8))):
         kind = draw(st.sampled_from(['reply', 'reply', 'reply', 'reply-split', 'error', 'update', 'stray', 'sleep', 'sleep'] + (['ignore'] * 3 if lossy else [])))
@@ -323,7 +324,10 @@ def run_session(case, preempt=None):
                 t0 = dsched.v_time()
                 try:
                     action, ident = c['key']
-                    r = client.request(action, ident, {1, 2} if c.get('bad') else 100 + i if action == 'change' else None)
+                    if c.get('bad') == 'unhashable':
+                        r = client.request(action, [ident], 1)      # (a specifier which is no string)
+                    else:
+                        r = client.request(action, ident, {1, 2} if c.get('bad') else 100 + i if action == 'change' else None)
                     out['results'][i] = ('reply', r[0], r[1], r[2], t0, dsched.v_time())
                 except Exception as e:   # noqa
                     out['results'][i] = ('exc', type(e).__name__, str(e), None, t0, dsched.v_time())
